@@ -134,6 +134,9 @@ class C08(FMonitor):
             if n is not None and tname(n) == "Splitter":
                 self.splitter_offer(led, n, nid, iid, t_offer)
                 continue
+            if n is not None and tname(n) == "Combiner":
+                self.combiner_offer(led, n, nid, iid, t_offer)
+                continue
             if n is None or tname(n) != "Machine":
                 continue
             self.checked.add((iid, nid))
@@ -168,6 +171,31 @@ class C08(FMonitor):
         if abs((t_offer - t_pull) - d) > EPS * max(1.0, t_offer):
             led.V("C08", "offered-exactly-one-delay-after-pull", "splitter %s pulled %s at %s with delay %s but first offered its content downstream at %s"
                   % (nid, pal.id, t_pull, d, t_offer), node="Splitter", late=(t_offer - t_pull) > d)
+
+    def combiner_offer(self, led, n, nid, iid, t_offer):
+        """a combiner works on one pallet at a time: pallet k is offered no earlier than one processing delay after both its
+        delay was drawn (all ingredients in) and pallet k-1 has left"""
+        self.checked.add((iid, nid))
+        draws = led.draws.get("pd:" + nid)
+        if not draws:
+            return
+        pals = [it for (t, it, idx) in led.pulls.get(nid, []) if getattr(it, "flow_item_type", "") == "Pallet"]
+        k = next((i for i, p in enumerate(pals) if id(p) == iid), None)
+        if k is None or k >= len(draws):
+            return
+        t_draw, d = draws[k]
+        prev_left = 0.0
+        if k > 0:
+            pp = [t for (t, it, idx) in led.pushes.get(nid, []) if it is pals[k - 1]]
+            dd = [t for (t, nn, it) in led.discards if nn == nid and it is pals[k - 1]]
+            if not pp and not dd:
+                led.V("C08", "at-most-work_capacity", "combiner %s offers %s downstream while %s has not left yet" % (nid, pals[k].id, pals[k - 1].id), node="Combiner")
+                return
+            prev_left = (pp + dd)[0]
+        start = max(t_draw, prev_left)
+        if t_offer < start + d - EPS * max(1.0, t_offer):
+            led.V("C08", "offered-exactly-one-delay-after-pull", "combiner %s offered %s at %s: its delay %s was drawn at %s and the previous pallet left at %s, so processing cannot have ended before %s"
+                  % (nid, pals[k].id, t_offer, d, t_draw, prev_left, start + d), node="Combiner", late=False)
 
     def delay_of(self, led, n, nid, k):
         draws = led.draws.get("pd:" + nid)
